@@ -32,14 +32,14 @@ theorem State.find_mod_isSome {s : State} (u v : Nat) (f : Block → Block) (hf 
 theorem maybeTick_inv {s : State} (h : InvNum s) : InvNum (maybeTick s) := by
   unfold maybeTick; split
   · exact h
-  · exact h.frame rfl rfl rfl rfl rfl rfl rfl rfl
+  · exact h.frame rfl rfl rfl rfl rfl rfl rfl
 
 theorem wakeNext_inv {s : State} (h : InvNum s) (u : Nat) : InvNum (wakeNext s u) := by
   unfold wakeNext
   split
   · split
     · exact h
-    · exact (h.modN u _ (by intro b; exact ⟨rfl, rfl, rfl⟩)).frame rfl rfl rfl rfl rfl rfl rfl rfl
+    · exact (h.modN u _ (by intro b; exact ⟨rfl, rfl, rfl⟩)).frame rfl rfl rfl rfl rfl rfl rfl
   · exact h
 
 theorem blockRelease_inv {s : State} (h : InvNum s) (u c : Nat) : InvNum (blockRelease s u c) := by
@@ -58,10 +58,10 @@ theorem releaseUnused_inv {s : State} (h : InvNum s) (u c : Nat) : InvNum (relea
   unfold releaseUnused
   have h1 := blockRelease_inv h u c
   have h2 : InvNum { blockRelease s u c with gcReq := (blockRelease s u c).gcReq + 1 } :=
-    h1.frame rfl rfl rfl rfl rfl rfl rfl rfl
+    h1.frame rfl rfl rfl rfl rfl rfl rfl
   simp only
   split
-  · exact h2.frame rfl rfl rfl rfl rfl rfl rfl rfl
+  · exact h2.frame rfl rfl rfl rfl rfl rfl rfl
   · exact h2
 
 theorem tryAcq_inv {s : State} (h : InvNum s) (id u a : Nat) (p : Bool) :
@@ -71,7 +71,7 @@ theorem tryAcq_inv {s : State} (h : InvNum s) (id u a : Nat) (p : Bool) :
   · exact h.fail _
   · split
     · exact h.modN u _ (by intro b; exact ⟨rfl, rfl, rfl⟩)
-    · exact (h.modN u _ (by intro b; exact ⟨rfl, rfl, rfl⟩)).frame rfl rfl rfl rfl rfl rfl rfl rfl
+    · exact (h.modN u _ (by intro b; exact ⟨rfl, rfl, rfl⟩)).frame rfl rfl rfl rfl rfl rfl rfl
 
 theorem map_fst_setFlag (l : List (Nat × Bool)) (c : Nat) (v : Bool) :
     (l.map fun p => if p.1 == c then (c, v) else p).map (·.1) = l.map (·.1) := by
@@ -85,20 +85,19 @@ theorem map_fst_setFlag (l : List (Nat × Bool)) (c : Nat) (v : Bool) :
 
 theorem lend_inv {s : State} (h : InvNum s) (r u c : Nat) : InvNum (lend s r u c) := by
   unfold lend
-  have h0 : InvNum { s with nacq := s.nacq - 1 } := h.frame rfl rfl rfl rfl rfl rfl rfl rfl
+  have h0 : InvNum { s with nacq := s.nacq - 1 } := h.frame rfl rfl rfl rfl rfl rfl rfl
   simp only
   split
   · exact h0.fail _
   · split
-    · exact (h0.modN _ _ (by intro b; exact ⟨rfl, map_fst_setFlag _ _ _, rfl⟩)).frame
-        rfl rfl rfl rfl rfl rfl rfl rfl
+    · exact (h0.modN _ _ (by intro b; exact ⟨rfl, map_fst_setFlag _ _ _, rfl⟩)).frame rfl rfl rfl rfl rfl rfl rfl
     · exact h0.fail _
 
 theorem abortWaiters_inv {s : State} (h : InvNum s) (u : Nat) : InvNum (abortWaiters s u) := by
   unfold abortWaiters
   split
   · exact h
-  · exact (h.modN u _ (by intro b; exact ⟨rfl, rfl, rfl⟩)).frame rfl rfl rfl rfl rfl rfl rfl rfl
+  · exact (h.modN u _ (by intro b; exact ⟨rfl, rfl, rfl⟩)).frame rfl rfl rfl rfl rfl rfl rfl
 
 /-! ### the waitlist scan only changes the waitlist -/
 
@@ -133,7 +132,7 @@ theorem findStarving_frame (s : State) :
     split <;> (simp only; rw [this]; exact hp)
 
 theorem findStarving_inv {s : State} (h : InvNum s) : InvNum (findStarving s).1 := by
-  rw [findStarving_frame]; exact h.frame rfl rfl rfl rfl rfl rfl rfl rfl
+  rw [findStarving_frame]; exact h.frame rfl rfl rfl rfl rfl rfl rfl
 
 theorem findStarving_find (s : State) (u : Nat) : (findStarving s).1.find u = s.find u := by
   rw [findStarving_frame]; rfl
@@ -158,7 +157,7 @@ theorem bump_inv {s : State} (h : InvNum s) {u : Nat} {b : Block} (hb : s.find u
   · have hs := sum_size_mod hwf (u := u) (b := b) hb (fun b => { b with pending := b.pending + 1 })
     have := h.acc
     unfold usage at *
-    show s.cur + 1 + s.phantom = sumInt ((({ s with cur := s.cur + 1 } : State).mod u _).blocks.map Block.size) + cnt Task.closing s.tasks
+    show s.cur + 1 = sumInt ((({ s with cur := s.cur + 1 } : State).mod u _).blocks.map Block.size) + cnt Task.closing s.tasks
     rw [hs]
     simp only [Block.size] at *
     omega
@@ -266,7 +265,7 @@ theorem schedXfer_inv {s : State} (h : InvNum s) (f c t : Nat) (bh : Bool) :
         refine ⟨hwf2, ?_, h.cap⟩
         have := h.acc
         unfold usage at *
-        show s.cur + s.phantom = sumInt (((s.mod f _).mod t _).blocks.map Block.size) + cnt Task.closing s.tasks
+        show s.cur = sumInt (((s.mod f _).mod t _).blocks.map Block.size) + cnt Task.closing s.tasks
         rw [hsum2]
         simp only [Block.size] at *
         omega
